@@ -577,6 +577,8 @@ def grams_for(prop, tier, seed):
         sr = F.fam_skiprules(tier)
         g += sr[::6] if q else sr
         g += F.fam_odd(tier)
+        mm = F.fam_memo(tier)
+        g += mm[::3] if q else mm
         return g
     if prop == "C03":
         g = F.fam_ops(tier)
@@ -636,6 +638,7 @@ def grams_for(prop, tier, seed):
         g += F.fam_rand(tier, seed, 6 if q else 60, "mix")
         ss = F.fam_skipstack(tier)
         g += ss[::2] if q else ss
+        g += F.fam_memo(tier)
         return g
     if prop == "C06":
         g = F.fam_slices(tier)
